@@ -6,6 +6,9 @@ modes
   eq   <vectors.ndjson> <out.ndjson> <n> <seed>   equality / hash / fast_compare events on pairs and triples
   heap <out.ndjson> <nhist> <seed>          histories of object creation / copy-construction / garbage collection /
                                             address reuse, each action logged (trace validated against C03_Heap)
+  share <vectors.ndjson> <out.ndjson>       every history emitted by C03_Share (builds creating SHARED sub-objects, hashes,
+                                            one Term.subst_type_inplace) is performed on real Term objects with the same sharing;
+                                            projected state before / after (trace validated against C03_ShareTrace)
 No verdict is computed here.
 """
 import copy
@@ -85,6 +88,13 @@ def ops(vec_path, out_path):
                     t2.subst_type_inplace(ti)
                     return t2
                 calls.append(("subst_type_inplace", inplace))
+                if route == "shared":
+                    def inplace_shared():
+                        t3 = build(v["t"], {})        # structurally identical sub-terms are ONE object; no rebuilding copy
+                        hash(t3)
+                        t3.subst_type_inplace(ti)
+                        return t3
+                    calls.append(("subst_type_inplace_shared", inplace_shared))
             elif op == "subst":
                 def mk():
                     inst = Inst()
@@ -105,7 +115,7 @@ def ops(vec_path, out_path):
                     ev["op"] = "subst_norm"
                 ev["key"] = "%s:%s:%s" % (route, name, digest([v]))
                 out.write(json.dumps(ev, separators=(",", ":")) + "\n")
-                if name == "subst_type_inplace" and r is not None:
+                if name in ("subst_type_inplace", "subst_type_inplace_shared") and r is not None:
                     # history: hash memoised BEFORE the in-place instantiation, then comparison with an equal fresh term
                     fresh = dec(enc(r))
                     oc2, q = outcome_of(lambda: (r == fresh, hash(r) == hash(fresh), sign(term_ord.fast_compare(r, fresh)),
@@ -117,7 +127,7 @@ def ops(vec_path, out_path):
                         e2.update({"eq": q[0], "heq": q[1], "c12": q[2], "c21": q[3], "eq21": q[4]})
                     out.write(json.dumps(e2, separators=(",", ":")) + "\n")
                 # history: the input term must be unchanged by the operation
-                if name not in ("subst_type_inplace",):
+                if name not in ("subst_type_inplace", "subst_type_inplace_shared"):
                     tid += 1
                     out.write(json.dumps({"tid": tid, "kind": "unchanged", "route": route, "call": name,
                                           "before": v["t"], "after": enc(t),
@@ -350,6 +360,92 @@ def heap(out_path, nhist, seed):
     print("heap events", tid, "address reuse realised", reuse_hits, "of", reuse_tries)
 
 
+# ---------------------------------------------------------------------------------------------------
+FOREIGN_KEY = "inplace-tyinst:memoised-hash-of-another-term-sharing-a-mutated-subobject"
+
+
+def _type_or_err(o):
+    try:
+        return encT(o.checked_get_type())
+    except Exception:
+        return ["err"]
+
+
+def _perform(hist):
+    """Perform a history of C03_Share on real objects.  Returns (objs, pre, ch, outcome): structural encodings and
+    children (by object IDENTITY, 1-based, 0 = none) just before the in-place instantiation."""
+    objs, pre, ch, outcome = [], None, None, "ok"
+    for a in hist:
+        if a["act"] == "leaf":
+            objs.append(dec([a["nm"][0], a["nm"][1], a["T"]]))
+        elif a["act"] == "comb":
+            objs.append(Comb(objs[a["f"] - 1], objs[a["a"] - 1]))
+        elif a["act"] == "hash":
+            hash(objs[a["o"] - 1])
+        elif a["act"] == "inplace":
+            idx = {id(o): i + 1 for i, o in enumerate(objs)}
+            pre = [enc(o) for o in objs]
+            ch = [[idx.get(id(o.fun), 0), idx.get(id(o.arg), 0)] if o.is_comb() else [0, 0] for o in objs]
+            ti = TyInst(**{k: decT(T) for k, T in a["ti"]})
+            root = objs[a["o"] - 1]
+            outcome, _ = outcome_of(lambda: root.subst_type_inplace(ti))
+    return objs, pre, ch, outcome
+
+
+def share(vec_path, out_path):
+    out = open(out_path, "w")
+    tid = 0
+    for ln in open(vec_path):
+        if not ln.strip():
+            continue
+        v = json.loads(ln)
+        objs, pre, ch, outcome = _perform(v["hist"])
+        d = digest([v["hist"]])
+        tid += 1
+        ev = {"tid": tid, "kind": "sact", "hist": v["hist"], "foreign": v["foreign"], "nobj": v["nobj"], "outcome": outcome,
+              "ch": ch, "pre": pre, "post": [enc(o) for o in objs], "pty": [_type_or_err(o) for o in objs],
+              "key": "share:sact:%s" % d}
+        out.write(json.dumps(ev, separators=(",", ":")) + "\n")
+        # observation of ==/hash against structurally rebuilt copies; the objects OUTSIDE the instantiated term that hold a hash
+        # memoised before over a sub-object the instantiation changes (class computed by the specification: `foreign`) are
+        # observed apart, last (no other object contains one of them)
+        own = [i for i in range(1, len(objs) + 1) if i not in v["foreign"]]
+        for grp, which, key in ((own, "own", "share:sobs:%s" % d), (v["foreign"], "foreign", FOREIGN_KEY)):
+            if not grp:
+                continue
+            def obs():
+                eqs, heqs = [], []
+                for i in grp:
+                    o = objs[i - 1]
+                    fresh = dec(enc(o))
+                    eqs.append(bool(o == fresh))
+                    heqs.append(hash(o) == hash(fresh))
+                return eqs, heqs
+            oc, r = outcome_of(obs)
+            tid += 1
+            ev = {"tid": tid, "kind": "sobs", "group": which, "objs": grp, "hist": v["hist"], "foreign": v["foreign"], "nobj": v["nobj"],
+                  "outcome": oc, "eq": r[0] if r else [], "heq": r[1] if r else [], "key": key}
+            out.write(json.dumps(ev, separators=(",", ":")) + "\n")
+    out.close()
+    print("share events", tid)
+
+
+def share_probe():
+    """Which machine of C03_Share is the code?  (selects the configuration that is model-checked; no verdict)"""
+    a = STVar("a")
+    x = Var("x", a)
+    t = Comb(Comb(Const("equals", TFun(a, a, BoolType)), x), x)
+    t.subst_type_inplace(TyInst(a=TConst("list", a)))
+    once = encT(x.T) == ["tc", "list", [["stv", "a"]]]
+    y = Var("x", a)
+    p = Comb(Const("f", TFun(a, BoolType)), y)
+    hash(p)
+    before = getattr(p, "_hash_val", None)
+    y.subst_type_inplace(TyInst(a=BoolType))
+    parents = hash(p) == hash(Comb(Const("f", TFun(BoolType, BoolType)), Var("x", BoolType)))
+    return {"inst_once": once, "parents_invalidated": parents, "memo_field": before is not None}
+
+
 if __name__ == "__main__":
     mode = sys.argv[1]
     if mode == "ops":
@@ -358,6 +454,10 @@ if __name__ == "__main__":
         eq_events(sys.argv[2], sys.argv[3], int(sys.argv[4]), int(sys.argv[5]))
     elif mode == "heap":
         heap(sys.argv[2], int(sys.argv[3]), int(sys.argv[4]))
+    elif mode == "share":
+        share(sys.argv[2], sys.argv[3])
     elif mode == "probe":
         t = Term(Var("x", BoolType))
-        print(json.dumps({"has_token": hasattr(t, "_id"), "copy_reowns": getattr(t, "_id", None) == id(t)}))
+        pr = {"has_token": hasattr(t, "_id"), "copy_reowns": getattr(t, "_id", None) == id(t)}
+        pr.update(share_probe())
+        print(json.dumps(pr))
